@@ -265,8 +265,12 @@ class InProtocolBase(ProtocolMixin):
         return value
 
     def any_xml_from_bytes(self, cls, string):
+        # the text comes from the client just like the request document does
+        parser = etree.XMLParser(resolve_entities=False, load_dtd=False,
+                         no_network=True, huge_tree=False, dtd_validation=False,
+                                                       attribute_defaults=False)
         try:
-            return etree.fromstring(string)
+            return etree.fromstring(string, parser=parser)
         except (etree.XMLSyntaxError, ValueError) as e:
             raise ValidationError(string,
                                          "%%r: %s" % repr(e).replace("%", "%%"))
